@@ -117,6 +117,10 @@ struct pfx {
      * lazily answers by calling upipe_set_output); return UBASE_ERR_UNHANDLED to let the event go on */
     int (*need_output_hook)(struct pfx *pfx, int probe_id, struct upipe *upipe, void *opaque);
     void *need_output_opaque;
+    /* optional: called for every event other than a log that a live pipe throws on a recording probe, after it was recorded and
+     * before it travels on (applications act inside events: e.g. release their handle on source_end) */
+    void (*event_hook)(struct pfx *pfx, int probe_id, struct upipe *upipe, int event, void *opaque);
+    void *event_opaque;
 };
 
 int  pfx_init(struct pfx *pfx, const struct pfx_cfg *cfg);
